@@ -22,6 +22,7 @@ Proof.
   intros K msg n H. unfold Mac.prf_short.
   destruct (Nat.ltb_spec 16 (length msg)); destruct (Nat.ltb_spec 16 n); cbn [orb]; try reflexivity. lia.
 Qed.
+Print Assumptions C04_prf_short_errors.
 
 Theorem C04_mac : forall K msg, length K = 16 -> mac_c Perm.perm K msg = Mac.mac Perm.perm K msg.
 Proof. intros K msg HK. exact (prf_oneshot_spec Perm.perm perm_len K 16 msg 16 HK). Qed.
